@@ -1273,6 +1273,9 @@ def planck_exitance(wave, temp, waveunit='nm', valueunit='wlam'):
     # convert wave to meters (in floating point: integer wavelengths overflow
     # in wave**5)
     wave = np.asarray(wave, dtype=float) * Unit(waveunit).to('meter')
+    # (a single precision temperature array would otherwise set the precision of
+    # the whole evaluation when the wavelength is a scalar)
+    temp = np.asarray(temp, dtype=float)
 
     # compute flux in W m^-2 sr^-1 m^-1
     flux = 2*np.pi*H*C**2/(wave**5*(np.exp(H*C/(wave*K*temp))-1))
@@ -1314,6 +1317,9 @@ def planck_radiance(wave, temp, waveunit='nm', valueunit='wlam'):
     # convert wave to meters (in floating point: integer wavelengths overflow
     # in wave**5)
     wave = np.asarray(wave, dtype=float) * Unit(waveunit).to('meter')
+    # (a single precision temperature array would otherwise set the precision of
+    # the whole evaluation when the wavelength is a scalar)
+    temp = np.asarray(temp, dtype=float)
 
     # compute flux in W m^-2 m^-1
     flux = 2*H*C**2/(wave**5*(np.exp(H*C/(wave*K*temp))-1))
